@@ -90,7 +90,19 @@ static Target1D affine_target(const Target1D& T, double off, double w)
 	S.cdf = [cdf, back, slo, shi](double x) { return x <= slo ? 0.0 : (x >= shi ? 1.0 : cdf(back(x))); };
 	return S;
 }
-static const double AFFINE_MENU[4][2] = {{0.0, 1e-9}, {1e9, 1.0}, {-3e8, 0.5}, {0.0, 1e6}};
+// a sigmoidal law on [0,1] (logistic with steepness 12..24, truncated): far from linear, so one or two steps of a root finder do not solve cdf(x) = xi
+static Target1D steep_logistic_target(Rng& rng)
+{
+	Target1D T;
+	double k = rng.uni(12, 24), m = rng.uni(0.3, 0.7);
+	auto sg	 = [](double z) { return 1.0 / (1.0 + std::exp(-z)); };
+	double F0 = sg(-k * m), F1 = sg(k * (1 - m));
+	T.name = "steep truncated logistic on [0,1]", T.lo = 0, T.hi = 1, T.ymax = 0.25;
+	T.pdf = [k, m, sg](double x) { double q = sg(k * (x - m)); return q * (1 - q); };
+	T.cdf = [k, m, sg, F0, F1](double x) { return (sg(k * (x - m)) - F0) / (F1 - F0); };
+	return T;
+}
+static const double AFFINE_MENU[4][2] = {{0.0, 1e-12}, {1e9, 1.0}, {-3e8, 0.5}, {0.0, 1e6}};
 // Kolmogorov-Smirnov statistic sqrt(N) D against a continuous CDF
 static double ks_stat(std::vector<double>& xs, const std::function<double(double)>& cdf)
 {
@@ -408,7 +420,7 @@ static void case_law(Rng& rng, uint64_t index)
 			if((index / 12) % 2 == 1)
 			{
 				const double* m = AFFINE_MENU[(index / 24) % 4];
-				T = affine_target(T, m[0], m[1]);
+				T = affine_target(steep_logistic_target(rng), m[0], m[1]);
 			}
 			size_t Ng  = N / 4;
 			if(which == 4 && (index / 12) % 2 == 1 && !ctx().is_asan())
